@@ -152,8 +152,19 @@ def from_canon(canon) -> dict:
 
 
 def from_doc(doc) -> dict:
-    """Arrangement stored in a (closed) AOEF document."""
+    """Arrangement stored in a (closed) AOEF document.
+
+    Only the lists that belong to the document's collection type count: an
+    annotation project has no matches, clip evaluations or predictions, and a
+    loader rightly ignores such keys if a storage fault spliced them in.
+    """
     data = doc["data"]
+    if data.get("collection_type") != "evaluation":
+        data = {
+            k: v for k, v in data.items()
+            if k not in ("matches", "clip_evaluations", "clip_predictions",
+                         "sound_event_predictions", "sequence_predictions")
+        }
 
     def index(name):
         return {rec["uuid"]: rec for rec in data.get(name) or []}
